@@ -224,3 +224,41 @@ def ob_gensym_vs_user(r, tier, seed):
 _c19_obl = obligations
 def obligations():
     return _c19_obl() + [Ob('O19.5-temporaries-vs-user-names', 'compiler temporaries never have the name of a user-chosen top-level identifier', ob_gensym_vs_user, ('quick', 'thorough'), 2, {})]
+
+# ----------------------------------------------------------------------------- O19.2 reserved names of the Go output
+GO_PREDECLARED = ['nil', 'true', 'false', 'iota', 'len', 'cap', 'append', 'make', 'new', 'copy', 'delete', 'panic', 'recover', 'print', 'println', 'close', 'complex', 'real', 'imag', 'min', 'max', 'clear',
+                  'int', 'int8', 'int16', 'int32', 'int64', 'uint', 'uint8', 'uint16', 'uint32', 'uint64', 'uintptr', 'float32', 'float64', 'complex64', 'complex128', 'bool', 'string', 'byte', 'rune', 'error', 'any', 'comparable']
+OUTPUT_NAMES = ['main', 'main0', 'fmt']      # the entry point wrapper, the renamed user main, the imported package
+
+def ob_reserved(r, tier, seed):
+    import os, subprocess, tempfile, shutil, json as _j
+    W = e2.fresh_world(CRATES)
+    names = OUTPUT_NAMES + GO_PREDECLARED
+    rc, out, errt = build.run_driver('vreplay', '\n'.join(_j.dumps({'fn': 'lex', 'args': [n]}) for n in names) + '\n')
+    spellable = [n for n, l in zip(names, out.splitlines()) if [t[0] for t in _j.loads(l)['ok']] == ['Ident']]
+    r.bounds = 'every name the emitted Go relies on (%s + Go predeclared identifiers) that the goml lexer accepts as a user identifier: %s' % (OUTPUT_NAMES, spellable)
+    r.assumptions = ['oracle: a user-spellable identifier equal to such a name must not come out of go_ident unchanged (a user function of that name would be emitted next to / shadow it)',
+                     '`main` itself is excluded: it is the program entry point and is renamed by the code generator']
+    hits = []
+    for n in spellable:
+        if n == 'main': continue
+        res = e2.explore(r, W, lambda ex, n=n: ex.call('go_ident', [ms.mkstr(n)]), [])
+        for p in res:
+            r.cases += 1; r.nontrivial += 1
+            if p.kind == 'ok' and ms.pystr(p.value) == n: hits.append(n)
+    if hits:
+        conf = []
+        for n in [h for h in hits if h in ('main0', 'fmt')]:
+            d = tempfile.mkdtemp(prefix='vf-c19-')
+            try:
+                open(os.path.join(d, 'main.gom'), 'w').write('fn %s() -> int32 { 1 }\nfn main() -> unit { string_println(int32_to_string(%s())) }\n' % (n, n))
+                o = subprocess.run([build.compiler_bin(), 'run', '--dump-go', os.path.join(d, 'main.gom')], capture_output=True, text=True, timeout=60).stdout
+            finally: shutil.rmtree(d, ignore_errors=True)
+            if n == 'main0' and o.count('func main0()') == 2: conf.append('`fn main0` is emitted next to the generated `func main0` (declared twice)')
+            if n == 'fmt' and 'func fmt()' in o and '"fmt"' in o: conf.append('`fn fmt` is emitted as `func fmt()` next to `import "fmt"` (redeclared)')
+        r.findings.append(Finding('reserved-name-unmangled', 'go_ident leaves names unchanged that the emitted Go relies on: %s; %s' % (hits, '; '.join(conf)), {'names': hits}, bool(conf), '; '.join(conf)))
+    r.samples.append({'spellable': spellable})
+
+_c19_obl2 = obligations
+def obligations():
+    return _c19_obl2() + [Ob('O19.2-reserved-names', 'user-spellable names the output relies on are mangled', ob_reserved, ('quick', 'thorough'), 1, {})]
